@@ -353,7 +353,7 @@ def run(tier, only=None):
             st = explore.explore(h_dims_bounded, mode="dev", k=2, params=params, repo_root=core.REPO)
             bound = "dev(2) over the six per-dimension permutations of two NetCDF inputs, with -tod"
         else:
-            st = explore.explore(h, mode="full", params=params, repo_root=core.REPO)
+            st = explore.explore(h, mode="full", params=params, repo_root=core.REPO, time_cap=(600 if tier == "quick" else 1500))
             bound = "full product"
         subs.append(core.Sub.from_e1(name, st, bound=bound + " %r" % (params,),
                                      rule="one execution = one ordering; every cell of get_scores(All) and every sliced request compared with the "
